@@ -57,6 +57,7 @@ type c17Scenario struct {
 	TornAt      int               `json:"torn_at,omitempty"`
 	Neighbour   bool              `json:"concurrent_json_neighbour,omitempty"`
 	Composed    bool              `json:"evaluated_through_a_FlatMap_composition,omitempty"`
+	Pieces      int               `json:"response_body_arrives_in_pieces_of,omitempty"` // bytes per Read (0: all at once); Content-Length announced
 
 	h      *Hist
 	probes map[string]int
@@ -124,6 +125,11 @@ func (tr *c17Transport) RoundTrip(req *http.Request) (*http.Response, error) {
 	}
 	body := []byte(fmt.Sprintf(`{"v": %d, "s": "resp"}`, len(tr.recs)))
 	var rc io.ReadCloser = io.NopCloser(bytes.NewReader(body))
+	clen := int64(-1)
+	if tr.sc.Pieces > 0 && tr.fault == "none" {
+		rc = io.NopCloser(&c17PieceReader{data: body, n: tr.sc.Pieces})
+		clen = int64(len(body))
+	}
 	switch tr.fault {
 	case "torn":
 		at := tr.torn
@@ -143,7 +149,29 @@ func (tr *c17Transport) RoundTrip(req *http.Request) (*http.Response, error) {
 	// like net/http's own transport, the body belongs to the request: once the request's context is
 	// cancelled (or timed out) the connection is gone and reads fail
 	rc = &c17CtxBody{rc: rc, req: req}
-	return &http.Response{StatusCode: 200, Status: "200 OK", Proto: "HTTP/1.1", ProtoMajor: 1, ProtoMinor: 1, Header: http.Header{"Content-Type": {"application/json"}}, Body: rc, Request: req}, nil
+	return &http.Response{StatusCode: 200, Status: "200 OK", Proto: "HTTP/1.1", ProtoMajor: 1, ProtoMinor: 1, Header: http.Header{"Content-Type": {"application/json"}}, Body: rc, Request: req, ContentLength: clen}, nil
+}
+
+// c17PieceReader hands the body out n bytes per Read call.
+type c17PieceReader struct {
+	data []byte
+	n    int
+}
+
+func (r *c17PieceReader) Read(p []byte) (int, error) {
+	if len(r.data) == 0 {
+		return 0, io.EOF
+	}
+	k := r.n
+	if k > len(r.data) {
+		k = len(r.data)
+	}
+	if k > len(p) {
+		k = len(p)
+	}
+	copy(p, r.data[:k])
+	r.data = r.data[k:]
+	return k, nil
 }
 
 type c17CtxBody struct {
@@ -228,6 +256,10 @@ func genC17(t *simrt.Tape, tier string) Scenario {
 	sc.Via = []string{"Eval", "Subscribe"}[t.Choose(2)]
 	sc.Neighbour = t.Bool(1, 4)
 	sc.Composed = t.Bool(1, 4)
+	if t.Bool(1, 3) {
+		// ordinary network behaviour, not a fault: the body (of announced length) is delivered a few bytes per Read
+		sc.Pieces = 1 + t.Choose(7)
+	}
 	return sc
 }
 
